@@ -1,9 +1,144 @@
-/- C05 - model (stub: not built yet) -/
+/-
+C05 - model of `verifier.verifyRevocation` and `revocationFinalResult` (verifier/verifier.go):
+the backwards loop over the per-certificate results with its accumulators, validator
+selection (context-aware validator or deprecated client), the signing-time argument, and how
+the final result becomes the revocation ValidationResult.
+-/
 import NotationModel.Basic
 open Lean
 
 namespace NotationModel.C05
 
-def judge (_ : Json) : Except String Json := .error "C05: model not built yet"
+/-- per-certificate result reported by the validator -/
+inductive R | ok | nonRevokable | unknown | revoked
+  deriving DecidableEq, Repr, FromJson, ToJson
+
+/-- final result of the aggregation (`revocationresult.Result`, restricted to what can come out) -/
+inductive Final | ok | unknown | revoked
+  deriving DecidableEq, Repr, FromJson, ToJson
+
+def R.toFinal : R → Final
+  | .ok => .ok | .nonRevokable => .ok | .unknown => .unknown | .revoked => .revoked
+
+def R.good (r : R) : Bool := r == .ok || r == .nonRevokable
+
+/-- the loop's accumulators -/
+structure Acc where
+  final : Final := .unknown
+  numOK : Nat := 0
+  problematic : Option Nat := none     -- index of the certificate named in the error
+  revokedFound : Bool := false
+  revokedIdx : Option Nat := none
+  deriving DecidableEq, Repr
+
+/-- loop body for certificate `i` -/
+def loopStep (acc : Acc) (i : Nat) (r : R) : Acc :=
+  if r.good then { acc with numOK := acc.numOK + 1 }
+  else
+    { acc with final := r.toFinal, problematic := some i,
+               revokedFound := acc.revokedFound || r == .revoked,
+               revokedIdx := if r == .revoked then some i else acc.revokedIdx }
+
+/-- `for i := len-1; i >= 0; i--`: the certificate at the head is processed last -/
+def scan : List R → Nat → Acc
+  | [], _ => {}
+  | r :: rest, i => loopStep (scan rest (i + 1)) i r
+
+/-- `revocationFinalResult`: (final result, index of the problematic certificate) -/
+def revocationFinal (rs : List R) : Final × Option Nat :=
+  let acc := scan rs 0
+  let (final, prob) := if acc.revokedFound then (Final.revoked, acc.revokedIdx) else (acc.final, acc.problematic)
+  if acc.numOK == rs.length then (.ok, prob) else (final, prob)
+
+/-! ### scenario -/
+
+inductive Scheme | x509 | signingAuthority
+  deriving DecidableEq, Repr, FromJson, ToJson
+
+inductive Iface | validator | client
+  deriving DecidableEq, Repr, FromJson, ToJson
+
+inductive Action | enforce | log | skip
+  deriving DecidableEq, Repr, FromJson, ToJson
+
+structure Input where
+  vec : List R                 -- one result per chain certificate, leaf first
+  scheme : Scheme
+  iface : Iface
+  action : Action              -- action of the revocation type in the level
+  validatorError : Bool
+  methods : List String        -- OCSP / CRL / fallback annotations (logging only)
+  serverErrors : List Bool     -- per-certificate server errors (logging only)
+  deriving Repr, FromJson, ToJson
+
+/-- outcome of the revocation validation -/
+inductive Outcome
+  | notPerformed               -- no revocation result in the outcome
+  | pass
+  | revoked                    -- "signing certificate ... is revoked"
+  | unknown                    -- "... revocation status is unknown"
+  | inconclusive               -- validator error
+  deriving DecidableEq, Repr, FromJson, ToJson
+
+structure Obs where
+  outcome : Outcome
+  named : Option Nat           -- index of the certificate the error names
+  accepted : Bool              -- verifier.Verify returned no error (everything else passes)
+  calls : Nat                  -- validator / client calls
+  chainLen : Option Nat        -- length of the chain handed to the validator
+  signingTime : Option Bool    -- a non-zero signing time was handed over
+  usedIface : Option Iface
+  deriving DecidableEq, Repr, FromJson, ToJson
+
+def run (i : Input) : Obs :=
+  if i.action == .skip then
+    { outcome := .notPerformed, named := none, accepted := true, calls := 0, chainLen := none,
+      signingTime := none, usedIface := none }
+  else
+    let base : Obs := { outcome := .pass, named := none, accepted := true, calls := 1,
+                        chainLen := some i.vec.length,
+                        signingTime := some (i.scheme == .signingAuthority),
+                        usedIface := some i.iface }
+    let fail (o : Outcome) (n : Option Nat) : Obs :=
+      { base with outcome := o, named := n, accepted := i.action != .enforce }
+    if i.validatorError then fail .inconclusive none
+    else match revocationFinal i.vec with
+      | (.ok, _) => base
+      | (.revoked, n) => fail .revoked n
+      | (.unknown, n) => fail .unknown n
+
+/-! ### the property over observables -/
+
+def clauses (i : Input) (o : Obs) : Clauses :=
+  let performed := i.action != .skip
+  let allGood := i.vec.all R.good
+  let anyRevoked := i.vec.any (· == .revoked)
+  [ ("skipped_not_performed",
+      performed || (o.outcome == .notPerformed && o.calls == 0)),
+    ("validator_consulted_once_with_complete_chain",
+      !performed || (o.calls == 1 && o.chainLen == some i.vec.length && o.usedIface == some i.iface)),
+    ("signing_time_only_for_signing_authority",
+      !performed || o.signingTime == some (i.scheme == .signingAuthority)),
+    ("validator_error_fails", !(performed && i.validatorError) || o.outcome == .inconclusive),
+    ("passes_only_if_all_ok_or_non_revokable",
+      !(performed && !i.validatorError) || ((o.outcome == .pass) == allGood)),
+    ("any_revoked_fails_as_revoked_naming_a_revoked_certificate",
+      !(performed && !i.validatorError && anyRevoked) ||
+        (o.outcome == .revoked &&
+          match o.named with
+          | some n => i.vec[n]? == some .revoked
+          | none => false)),
+    ("otherwise_unknown",
+      !(performed && !i.validatorError && !allGood && !anyRevoked) ||
+        (o.outcome == .unknown &&
+          match o.named with
+          | some n => (i.vec[n]?.map R.good) == some false
+          | none => false)),
+    ("action_decides_rejection",
+      o.accepted == !(i.action == .enforce && o.outcome != .pass && o.outcome != .notPerformed)) ]
+
+def Holds (i : Input) (o : Obs) : Bool := (clauses i o).holds
+
+def judge := judgeWith run clauses
 
 end NotationModel.C05
